@@ -496,6 +496,9 @@ func c05Oracle(line, out string) string {
 	if out == "enc-mutates-value" || out == "enc-not-repeatable" {
 		return "the bytes produced for a value are the prescribed ones every time the value is encoded (encoding does not change the value)"
 	}
+	if strings.HasPrefix(out, "enc-depends-on-location") {
+		return valClauseZone
+	}
 	if f[0] == "cal" {
 		return c05CalOracle(f, out)
 	}
